@@ -262,6 +262,19 @@ def run_case(case):
                     compare(r, m2, what + " [copy returned by rename_axes]", sig, check_free=False)
                     cl.add("op:rename_axes")
                     continue
+                if b % 3 == 2 and len(m.axes) >= 2:
+                    # a mapping whose new names are also old names (swap / shift): all names are replaced at once
+                    cur = list(m.axes)
+                    k_ = 1 + c % (len(cur) - 1)
+                    tgt = cur[k_:] + cur[:k_] if e % 3 else cur[1:] + [new]
+                    mp = dict(zip(cur, tgt))
+                    lib(lambda: ds.rename_axes(dict(mp)), what=what + " rename_axes(%s)" % (mp,), sig=sig)
+                    m.axes = collections.OrderedDict((mp[d], l) for d, l in m.axes.items())
+                    m.vars = collections.OrderedDict((kk, (tuple(mp[d] for d in dd), v)) for kk, (dd, v) in m.vars.items())
+                    m.free = set(mp[d] for d in m.free)
+                    cl.add("rename_axes:overlapping-names")
+                    cl.add("op:" + op)
+                    continue
                 lib(lambda: ds.rename_axes({old: new}), what=what + " rename_axes({%s: %s})" % (old, new), sig=sig)
             m.rename_axis(old, new)
             cl.add("op:" + op)
